@@ -47,6 +47,20 @@ def gen_target(rng, refs, prev_bb):
     if name == 'ellipse' and rng.chance(0.5):
         size_attrs = [('rxy', '%s %s' % (fmt(w / 2), fmt(h / 2)))]
     exp = None; attrs = []
+    # size deltas (dw / dh / dwh, absolute or percent) are applied to the element's own size BEFORE it is placed;
+    # round shapes are excluded (known finding K23: deltas ignored there)
+    if form in ('dir', 'loc', 'axis', 'scalar') and name in ('rect', 'line') and rng.chance(0.3) and size_attrs[0][0] != 'r':
+        kind = rng.choice(['dw', 'dh', 'dwh', 'dwh2'])
+        def delta(v):
+            if rng.chance(0.4):
+                pc = rng.choice([50, 150, 200, 25]); return '%d%%' % pc, v * pc / 100
+            d = dy(rng, 0, 6, 2); return fmt(d), v + d
+        if kind == 'dw': t, w = delta(w); size_attrs = size_attrs + [('dw', t)]
+        elif kind == 'dh': t, h = delta(h); size_attrs = size_attrs + [('dh', t)]
+        elif kind == 'dwh':
+            d = dy(rng, 0, 6, 2); w, h = w + d, h + d; size_attrs = size_attrs + [('dwh', fmt(d))]
+        else:
+            t1, w = delta(w); t2, h = delta(h); size_attrs = size_attrs + [('dwh', '%s %s' % (t1, t2))]
     if form == 'dir':
         d = rng.choice('hHvV'); g = dy(rng, -5, 8, 2) if rng.chance(0.7) else None
         attrs = [('xy', '%s|%s%s' % (ref, d, '' if g is None else ' ' + fmt(g)))] + size_attrs
@@ -95,6 +109,17 @@ def gen_target(rng, refs, prev_bb):
         if kind == 'dwh':
             attrs.append(('dwh', '%s %d%%' % (fmt(d1), pc)))
         exp = (x, y, x + ew, y + eh)
+    # a final translation dx / dy / dxy (dx != dy mostly) moves the placed element
+    if exp is not None and form != 'size' and rng.chance(0.3):
+        tx = dy(rng, -6, 6, 2); ty = dy(rng, -6, 6, 2)
+        if rng.chance(0.5): attrs.append(('dxy', '%s %s' % (fmt(tx), fmt(ty))))
+        else:
+            which = rng.choice(['both', 'x', 'y'])
+            if which != 'y': attrs.append(('dx', fmt(tx)))
+            else: tx = 0
+            if which != 'x': attrs.append(('dy', fmt(ty)))
+            else: ty = 0
+        exp = (exp[0] + tx, exp[1] + ty, exp[2] + tx, exp[3] + ty)
     rng.shuffle(attrs)
     return name, attrs, exp, form
 
